@@ -52,7 +52,7 @@ def check(c):
               'non-trivial = some variable is not a plain unitless number; distinct by history text')
     names_ok = S.regenerate_names(c)
     ok = c.proof(['C12'], extra_targets=['Extract/XSer.vo'])
-    if c.tier == 'thorough' and ok:
+    if c.tier == 'thorough':
         c.thorough_proof(['C12'])
     if not names_ok:
         return
@@ -94,8 +94,6 @@ def check(c):
         return
 
     # ---- 2. model on the image -----------------------------------------
-    mt = c.model(S.AREA, [S.mline('entries', TODAY, k['img']) for k in cases])
-    mf = c.model(S.AREA, [S.mline('entries', FIXED, k['img']) for k in cases])
     # ---- 3. implementation reload --------------------------------------
     il = c.impl(S.AREA, [sx([Sym('load'), k['img']]) for k in cases])
     # images written after the reload, read by the model (repaired reader: it reads every valid image)
@@ -106,7 +104,12 @@ def check(c):
         if isinstance(p, list) and p and p[0] == b'ok':
             idx2.append(i)
             lines2.append(S.mline('entries', FIXED, p[1]))
-    m2 = dict(zip(idx2, c.model(S.AREA, lines2, cross=False)))
+    # one batch for the model (each c.model call re-validates the extraction build)
+    lt = [S.mline('entries', TODAY, k['img']) for k in cases]
+    lf = [S.mline('entries', FIXED, k['img']) for k in cases]
+    mo = c.model(S.AREA, lt + lf + lines2)
+    mt, mf = mo[:len(lt)], mo[len(lt):2 * len(lt)]
+    m2 = dict(zip(idx2, mo[2 * len(lt):]))
     # ---- 4. behaviour before / after ------------------------------------
     live = c.impl(S.AREA, [sx([Sym('live'), k['names'], PROBES, k['stmts'], S.renamed(k['stmts'])]) for k in cases], timeout=40)
     loaded = c.impl(S.AREA, [sx([Sym('loaded'), k['img'], k['names'], PROBES, S.renamed(k['stmts'])]) for k in cases], timeout=40)
@@ -172,7 +175,8 @@ def check(c):
                 c.violation('reload-changes-or-fails', dict(replay, what=why, classes=classes))
             continue
         for cl in classes:
-            c.notes.append('class %s did not reproduce on: %s' % (cl, k['key'][:100]))
+            if any(kf.get('class') == cl and kf.get('status', 'open') == 'open' for kf in c.known):
+                c.notes.append('class %s did not reproduce on: %s' % (cl, k['key'][:100]))
         # ---- tie: the model of the tree being checked agrees that this image loads ----
         if not (isinstance(pt, list) and pt[0] == b'ok') and not classes:
             c.violation('model-rejects-image-the-implementation-reloads', dict(replay, kind='impl-vs-model', layer='L2 accept/reject', model_today=mt[i][:200]), no_input=True)
@@ -180,6 +184,18 @@ def check(c):
             sampled += 1
             c.sample({'history': k['stmts'], 'image_bytes': len(k['img']), 'variables': [e['name'].decode('utf-8', 'replace') for e in ents],
                       'reload': il[i][:20]})
+    # regression corpus: the image of `f = \\x.\\y.x+y; g = f 3' that fend wrote and could not read back
+    # (coq/Ser/Witness.v img_closure) must load and be written back with the same entries
+    wit = parse_sx(c.model(S.AREA, ['(witnesses)'], cross=False)[0])[0]
+    wl = try_parse(c.impl(S.AREA, [sx([Sym('load'), wit])])[0])
+    okw = isinstance(wl, list) and wl and wl[0] == b'ok'
+    if okw:
+        a, b = [try_parse(x) for x in c.model(S.AREA, [S.mline('entries', FIXED, wit), S.mline('entries', FIXED, wl[1])], cross=False)]
+        okw = (a[0] == b'ok' and b[0] == b'ok' and
+               collections.Counter(e['canon'] for e in S.split_entries(a)) == collections.Counter(e['canon'] for e in S.split_entries(b)))
+    if not okw:
+        c.violation('saved-closure-image-does-not-reload', {'kind': 'impl-vs-spec', 'history': ['f = \\x.\\y.x+y', 'g = f 3'],
+                                                            'image_hex': wit.hex(), 'what': 'regression of the repaired finding scope_flag_inverted'})
     c.extra['histories'] = len(hist)
     c.extra['images'] = len(cases)
     c.extra['probes_per_variable'] = PROBES
